@@ -349,6 +349,15 @@ func checkC05(c *h.Check) {
 			cases = append(cases, cs)
 		}
 	}
+	// the ambiguous injector sits in the first of two injector files (or the last)
+	for swap := 0; swap < 2; swap++ {
+		prog := twoFilesProgram(2, swap == 1)
+		cs := caseFromProgram(fmt.Sprintf("C05/two-injector-files/last=%d", swap), prog, false, nil)
+		cs.Judge = judgeProgramF(prog, false, nil, map[string]bool{"conflict": true})
+		if c.NoteProgram(cs.Files) {
+			cases = append(cases, cs)
+		}
+	}
 	// a conflict inside a set of another package that two root packages of one invocation both use: each of the two
 	// must be rejected with the diagnostic (nothing is remembered from the first package to the second)
 	for variant := 0; variant < 4; variant++ {
